@@ -1,9 +1,10 @@
 #!/bin/sh
 # Build the framework offline from files on disk: regenerate Gen/*.lean from /repo, build the
-# model, the driver executable and every proof module.
+# model, the driver executable, every proof module and every property module.
 set -e
 cd "$(dirname "$0")"
 PY=/venv/bin/python; [ -x "$PY" ] || PY=python3
 $PY tools/py2lean.py > /dev/null || echo "setup: translator reported broken obligations (checks will report them)"
 cd lean
-lake build driver Spake2Model Spake2Verif 2>&1 | tail -5
+PROPS=$(ls Spake2Verif/Properties/*.lean 2>/dev/null | sed 's/\.lean$//; s#/#.#g')
+lake build driver Spake2Model Spake2Verif $PROPS 2>&1 | tail -5
